@@ -10,5 +10,5 @@ Separate Extraction Z.add Z.mul Z.div Z.modulo Z.opp Z.sub Z.of_nat Z.to_nat Z.o
   Quorum.sm Quorum.tc Quorum.trusted Quorum.ps_run Quorum.ps_len
   Quorum.super_majority Quorum.trust_count Quorum.keys
   Median.median ZMap.zelements ZMap.zget
-  HgImpl.init_hg HgImpl.insert_and_run HgImpl.process_sigpool HgImpl.known_events HgImpl.run
+  HgImpl.init_hg HgImpl.insert_event HgImpl.run_consensus HgImpl.insert_and_run HgImpl.process_sigpool HgImpl.known_events HgImpl.run
   Store.binit Store.bstep Store.brun.
